@@ -13,6 +13,7 @@ func init() {
 			"R-PRATT: the operator model extracted from parser.go (precedences, registrations, binding powers per parse method, loop comparison) groups every operator sequence of <= 3 operators exactly as the specification grammar of C01",
 			"R-OPTABLE: the typed infix evaluators are dispatched under the equal-types test and the kind test; following the operands from evalInfixExp through the (possibly reordered) parameters, every case \"op\" computes left.Value <Go op> right.Value for the 11 integer, 10 float and 3 string operators; unary minus negates the payload; postfix ++/-- add/subtract 1 (float -- through the digit-preserving helper with its error consumed)",
 			"R-DIVGUARD: every integer / and % on the render path has a divisor that is a non-zero constant or is dominated by the non-zero edge of a comparison with 0",
+			"R-BOUNDS (index expressions): every index and slice expression in the typed evaluators Eval reaches by static calls is proven in range (an index outside an array yields nil, it does not panic)",
 			"R-PRATT-SITES: every parseExpression call that is not an operator's open operand passes the lowest level (complete-expression positions)",
 		},
 		Decided:     "TODO",
@@ -34,6 +35,17 @@ func init() {
 			bc := m.newBoundsChecker(NewSink())
 			bc.s = s
 			bc.RunDivOnly("R-DIVGUARD", evalFns)
+			// indexing is an operator of the language: the index and slice expressions of the functions Eval reaches by
+			// static calls (the typed evaluators; the builtins are called through the function table and belong to C11)
+			if ev := m.Method("evaluator", "Evaluator", "Eval"); ev != nil {
+				var direct []*ssa.Function
+				for _, fn := range m.helpersOf(ev) {
+					if shortPkg(fnPkgPath(fn)) == "evaluator" && fn != ev {
+						direct = append(direct, fn)
+					}
+				}
+				bc.RunIndexOnly("R-BOUNDS", direct)
+			}
 			m.RunOpTable(s, "R-OPTABLE")
 			s.RequireMin("R-OPTABLE", 30, "3 dispatches, 24 operator cases, unary minus, 4 postfix cases")
 		},
